@@ -348,7 +348,7 @@ def main():
 
 
 def check(prop, tier, seed, cfg, build, workdir, t0):
-    for old in glob.glob(os.path.join(VERIF, "replays", "%s-*" % prop)):
+    for old in glob.glob(os.path.join(VERIF, "replays", "%s-*-s%d-*" % (prop, seed))):
         try:
             os.remove(old)  # replays of an earlier run of this check would only confuse
         except OSError:
